@@ -66,6 +66,12 @@ CLAIMED = {
                 'unregistered names answer -32601; clean views expose exactly their public callables. Correspondence over exhaustive short histories and random deep merges, probed by dispatching every name, '
                 'names one edit away and private member names on both dispatchers.',
                 note='Kernel + standard axioms; dir() order / callable() / __name__ of members are declared per test class (oracle input); D21 (public alias of a private view member) and D24 (Method object in a prefixed registry) are recorded findings.'),
+    'C13': dict(ref='§4 C13', text='Lean theorems: a memo table over a pure function never changes an answer (cachedCall_value / cachedCall_ok), the method layer threading the signature cache equals the uncached one, '
+                'C13_history_independence / C13_probe_after_history (every history, every probe), C13_no_retention (after D11 every cache key is the static key of a registered method: no per-request object id is retained) and '
+                'C13_bounded_state (table size <= number of registered methods), C13_interleaving_independence (any interleaving of lookup / insert steps of concurrent dispatches); the pinned keying is refuted by '
+                'C13_no_retention_counterexample. Tied by histories over the request corpus followed by a probe on both dispatchers (compared with the probe on a fresh dispatcher and with the model), '
+                'the real lru_cache growth compared with the model\'s table size, weak references to per-request contexts after gc for N in {1, 10, 1000}, and thread pools of 2..16 threads.',
+                note='Kernel + standard axioms; memory is observed through cache_info() and weak references, not through the allocator; the GIL / lru_cache atomicity and CPython reference counting + gc.collect() are assumed.'),
     'C14': dict(ref='§4 C14', text='Lean theorems, for every verdict function of the validator: executed iff the arguments bind to the reduced signature, validate, and the call goes through (C14_executed_iff); '
                 'otherwise -32602 with array data and no execution; accepted arguments reach the method unchanged, or exactly the converted values when coercion is on; excluded parameters (context, predicate) are neither '
                 'among the validated arguments nor settable by the client. Tied by dispatching through real JsonSchemaValidator / PydanticValidator-validated methods (schema fragments, annotations incl. Optional / List / Dict / model / enum, '
